@@ -1,7 +1,7 @@
 SPECIFICATION Spec
 CONSTANT MaxT = 5
-CONSTANT MaxR = 2
-CONSTANT MaxF = 2
+CONSTANT MaxR = 1
+CONSTANT MaxF = 1
 CONSTANT MCKinds = {"plain", "defer"}
 VIEW View
 INVARIANT ExactlyOnce
